@@ -30,7 +30,7 @@ RULE = (
 )
 ASSUMPTIONS = ["no hash collisions among the generated inputs", "digest texts are sorted as text (the order the definition's 'sorted' refers to)"]
 BUDGET = {"quick": (300, 4), "thorough": (90000, 16)}
-REQUIRED = ["rename_file", "rename_dir", "edit", "c4", "multi_format", "empty_dir", "ignored_entry", "permuted", "nested_history"]
+REQUIRED = ["rename_file", "rename_dir", "edit", "c4", "multi_format", "empty_dir", "ignored_entry", "permuted", "nested_history", "user_pattern", "path_pattern_depth>=2"]
 
 
 @st.composite
@@ -59,7 +59,44 @@ def _scn(draw):
         "perm": draw(st.integers(0, 2**32)),
         "dsstore": draw(st.sampled_from([None, None, "", "sub"])),
         "nest": draw(st.one_of(st.none(), st.sampled_from(dirs))) if dirs else None,
+        # one literal ignore pattern: a root-relative path of an entry at depth >= 2, '/'-anchored top-level name, or a base name
+        "ignore": draw(st.one_of(st.none(), st.sampled_from(_ignore_candidates(tree)))) if _ignore_candidates(tree) else None,
     }
+
+
+_SAFE = set("abcdefghijklmnopqrstuvwxyzABCDEFGHIJKLMNOPQRSTUVWXYZ0123456789._-")
+
+
+def _ignore_candidates(tree):
+    out = []
+    for p in gen.tree_files(tree) + gen.tree_dirs(tree):
+        parts = p.split("/")
+        if not all(set(c) <= _SAFE and c[0] not in ".-" for c in parts):
+            continue  # literal-safe names only, so that the pattern means exactly this path
+        if len(parts) >= 2:
+            out.append(p)
+        else:
+            out.append("/" + p)
+    return out + [c for c in out if "/" in c.strip("/")] * 4
+
+
+def _without(tree, pattern):
+    """the tree minus the entry a literal pattern ('a/b/c' or '/a', both relative to the root) names"""
+    parts = pattern.strip("/").split("/")
+
+    def rec(node, i):
+        out = {}
+        for n, c in node.items():
+            if n == parts[i]:
+                if i == len(parts) - 1:
+                    continue
+                if isinstance(c, dict):
+                    out[n] = rec(c, i + 1)
+                    continue
+            out[n] = c
+        return out
+
+    return rec(tree, 0)
 
 
 def strategy(tier):
@@ -205,6 +242,23 @@ def run_case(scn, ctx):
                     tabn[f][full] = v
             compare(tabn, ref, fmts, "nested", holder[-1], "create over a nested history")
             ctx.event("nested_history")
+
+        # a user pattern: directory hashes are the definition over exactly the non-ignored entries
+        if scn.get("ignore"):
+            pat = scn["ignore"]
+            w.build("I", scn["tree"])
+            reft = {f: refhash.dirhash(_to_bytes(_without(scn["tree"], pat)), f)[2] for f in fmts}
+            for f in fmts[:2]:
+                res = w.verify("I", flags=["-dh", "-co", "-h", f, "-i", pat])
+                require(res.exc is None and res.exit_code == 0, "ignored-printed", "verify -dh -co -i %s: %s" % (pat, res.brief()), res)
+                compare(printed_table(res.stdout), reft, [f], "ignored-printed", res, "verify -dh -co -i %r" % pat)
+            res = w.create("I", fmts, extra=["-i", pat])
+            holder.append(res)
+            require(res.exc is None and res.exit_code == 0, "create", "create -i failed: " + res.brief(), res)
+            compare(manifest_table(w.read_history("I")[-1][2]), reft, fmts, "ignored-manifest", res, "create -i %r" % pat)
+            ctx.event("user_pattern")
+            if "/" in pat.strip("/"):
+                ctx.event("path_pattern_depth>=2")
 
         # permuted enumeration order on a fresh copy
         w.build("P", scn["tree"])
